@@ -81,8 +81,24 @@ def inbound_pubcomp_lost_after_successful_write(events, v):
     return any(p["e"] == "c_pkt" and (p["c"], p["w"]) in lost and p.get("type") == "PUBCOMP" for p in ev)
 
 
+def inbound_pubrec_lost_after_successful_write(events, v):
+    """F17: before the violation a client write carrying a PUBREC was reported successful although its bytes never reached
+    the broker (connection lost right afterwards).  The operation waits for PUBREL while the broker, which got no PUBREC,
+    re-sends the PUBLISH (DUP) on the resumed session: two operations now exist for one exchange."""
+    ev = _before(events, v["n"] + 1)
+    lost = set()
+    for i, e in enumerate(ev):
+        if e["e"] == "c_write_end" and e.get("ec") == "ok":
+            nxt = ev[i + 1] if i + 1 < len(ev) else None
+            if nxt and nxt["e"] == "fault" and nxt.get("on") == "after_write" and nxt.get("c") == e.get("c"):
+                lost.add((e["c"], e["w"]))
+    if not lost: return False
+    return any(p["e"] == "c_pkt" and (p["c"], p["w"]) in lost and p.get("type") == "PUBREC" for p in ev)
+
+
 PREDICATES = {f.__name__: f for f in (cancelled_publish_aborted_after_reconnect, quota_corrupted_earlier, unsolicited_pubrel,
-                                        inbound_ack_write_failed_after_delivery, inbound_pubcomp_lost_after_successful_write)}
+                                        inbound_ack_write_failed_after_delivery, inbound_pubcomp_lost_after_successful_write,
+                                        inbound_pubrec_lost_after_successful_write)}
 
 
 def match(finding, events, v):
